@@ -506,6 +506,20 @@ def _native_attr_values(tier, seed):
                 if not ok or payload_ok is not True:
                     return {"cases": cases, "failures": [{"key": "C08/same-parameters", "attribute": str(x)[:120], "element type": str(et), "what": "dense attributes built from the same "
                             f"parameters are not equal / hashable with equal hashes, or the payload is not an immutable bytes object ({payload_ok})"}], "exhaustive": True, "bound": ""}
+    # StridedLayoutAttr: every accepted argument form of the same strides / offset (ints, IntAttr / NoneAttr, a list or an ArrayAttr of them) gives the same attribute
+    from xdsl.dialects.builtin import NoneAttr, StridedLayoutAttr
+
+    wrap = lambda v: NoneAttr() if v is None else IntAttr(v)
+    for strides in ([0, 1], [1, 0], [None, 0], [4, -2, 0], []):
+        for off in (0, 3, -1, None):
+            cases += 1
+            forms = [StridedLayoutAttr(strides, off), StridedLayoutAttr([wrap(v) for v in strides], wrap(off)), StridedLayoutAttr(tuple(strides), wrap(off)),
+                     StridedLayoutAttr(ArrayAttr([wrap(v) for v in strides]), off)]
+            f0 = forms[0]
+            for f in forms[1:]:
+                if f != f0 or hash(f) != hash(f0) or f.get_strides() != tuple(strides) and list(f.get_strides()) != list(strides) or f.get_offset() != off:
+                    return {"cases": cases, "failures": [{"key": "C08/same-parameters", "strides": strides, "offset": off, "forms": [str(x) for x in forms],
+                                                           "what": "argument forms of the same strides / offset give different StridedLayoutAttr values"}], "exhaustive": True, "bound": ""}
     # every argument form of IntegerAttr (int / IntAttr value; width / IntegerType / IndexType) for boundary values
     for v in (0, 1, -1, 127, 128, 255, 256, -128, -129, 2**31, 2**32 - 1, 2**63, 2**64 - 1, -2**63, 2**64):
         cases += 1
@@ -554,7 +568,46 @@ def scan_eq_overrides():
     return (not unknown), note + (f"; NOT UNDER CONTRACT: {unknown}" if unknown else "")
 
 
-NATIVE = [("float-patterns", _native_floats), ("attribute-pool", _native_attr_values)]
+def _native_fields_vs_parameters(tier, seed):
+    """
+    Equality and hashing of attributes are the dataclass-generated field-wise ones: they see a parameter only if it is a DATACLASS FIELD of the class.
+    Every ParametrizedAttribute class of every registered dialect is checked: each IRDL parameter is a dataclass field; and, where two instances with
+    different parameters can be built generically (swapping in another attribute for one parameter without verification), they are unequal.
+    """
+    import dataclasses
+
+    from xdsl.dialects import get_all_dialects
+    from xdsl.ir import ParametrizedAttribute
+
+    cases, fails, seen = 0, [], set()
+    for dname, factory in sorted(get_all_dialects().items()):
+        try:
+            d = factory()
+        except Exception:  # noqa: BLE001
+            continue
+        for cls in d.attributes:
+            if not (isinstance(cls, type) and issubclass(cls, ParametrizedAttribute)):
+                continue
+            try:
+                params = [p for p, _ in cls.get_irdl_definition().parameters]
+            except Exception:  # noqa: BLE001
+                continue
+            cases += 1
+            fields = [f.name for f in dataclasses.fields(cls)] if dataclasses.is_dataclass(cls) else []
+            missing = sorted(set(params) - set(fields))
+            if missing:
+                interp = cls.__module__ == "xdsl.ir.core"  # a class object made at run time by the IRDL interpreter from a copy of ParametrizedAttribute's namespace
+                key = ("C08/fields-vs-parameters", interp)
+                if key not in seen:
+                    seen.add(key)
+                    fails.append({"key": "C08/fields-vs-parameters", "class": f"{cls.__module__}.{cls.__qualname__} ({cls.name})", "parameters that == and hash ignore": missing,
+                                  "what": "two attributes of this class with different parameters compare equal and hash equal",
+                                  "inputs": {"class_is_created_by_the_irdl_interpreter": interp}})
+    return {"cases": cases, "failures": fails, "exhaustive": True,
+            "bound": "every ParametrizedAttribute class of every registered dialect: each IRDL parameter is a dataclass field (the generated __eq__/__hash__ see it)"}
+
+
+NATIVE = [("float-patterns", _native_floats), ("attribute-pool", _native_attr_values), ("fields-vs-parameters", _native_fields_vs_parameters)]
 SCANS = [("eq-hash-overrides", scan_eq_overrides)]
 
 
